@@ -173,11 +173,16 @@ def check(ctx):
     from ..rules import patterns as _pt
     _pt.check_state_written_only_when_initialising(ctx)
     ctx.floor('A13i', 8, 'writes of pattern-encoder state')
+    from ..rules import shapes as _sh10
+    _sh10.check_override_reductions(ctx)
+    ctx.floor('A10g', 1, 'reductions over per-scenario degree lists')
 
 
 from ..selftest import V  # noqa: E402
 
 VARIANTS = [
+    V('empty-degree-list-crashes-encoding', 'optimization/assign_enc/matrix.py',
+      [("max([max(n_conns) for n_conns in override_map.values() if len(n_conns) > 0], default=0)", "max([max(n_conns) for n_conns in override_map.values()])")], key='A10g'),
     V('pattern-state-overwritten-by-later-pattern', 'optimization/assign_enc/patterns/patterns.py',
       [("                if not _set_check('surjective', n_min_conn[0] == 1):\n                    return False\n                return True", "                if n_min_conn[0] == 1:\n                    self.surjective = True\n                return True")], key='A13i'),
     V('exclusion-followed-as-derivation', 'graph/traversal.py',
